@@ -21,6 +21,13 @@ from checks import e1common, irload, oracle, pool, refcommon
 from checks.common import REPO, Report, StandIn
 
 
+EXOTIC = [
+    'f("""page one\x0cpage two\nend""", x for x in y, 1)\n', 's = """a\rb\x0cc\nd"""\nx = (1 2)\n', 'f("""a\u2028b\nc""", 1 +)\n',
+    'x = 1  # a\x0cb\ny = (a 1)\n', "s = 'a\x1cb'\ny = (a 1)\n", "x = \'\'\'a\x85\nb\'\'\'; y = (1 2)\n", 'y = """a\nb\nc""" = 3\n',
+    "x = (\n  \'\'\'a\n\n  b\'\'\',\n  1 2)\n", "\x0c\nx = 1\ny = (a 1)\n",
+]
+
+
 def raise_sites(rep: Report):
     """every explicit raise of SyntaxError / IndentationError in the hand-written modules"""
     for rel in ("peg_parser/tokenize.py", "peg_parser/tokenizer.py", "peg_parser/subheader.py"):
@@ -91,7 +98,9 @@ def standin(rep: Report):
                                               "def f(:\n", "class A\n", "x = [1, 2\n", "f(a for a in b, c)\n", "a = 1 +\n", "print 1\n", "x = 'abc\n", "\tx\n y\n",
                                               "def f[T](): pass\n", "f!((a]\n", "x = '\\x'\n", "a\n\n'\\x'\n", "1 = x\n", "del f()\n", "for 1 in x: pass\n", "x = yield = 1\n",
                                               "import a.b as c.d\n", "from . import *, a\n", "with a as 1: pass\n", "try:\n  pass\n", "@\ndef f(): pass\n", "lambda: (yield) = 1\n",
-                                              "f(**a, *b)\n", "f(a=1, 2)\n", "x = {1: 2, 3}\n", "a if b\n", "x = f'{a b}'\n", "match x:\n  case 1 | y: pass\n case: pass\n"]
+                                              "f(**a, *b)\n", "f(a=1, 2)\n",
+                                              # characters str.splitlines() treats as line ends but the tokenizer does not, next to multi-line strings / comments
+                                              *EXOTIC, "x = {1: 2, 3}\n", "a if b\n", "x = f'{a b}'\n", "match x:\n  case 1 | y: pass\n case: pass\n"]
     cases = list(progs)
     n = 1500 if rep.tier == "quick" else 15000
     toks = ["(", ")", "[", "]", ":", ",", "=", "x", "1", "def", "if", "\n", " ", "'", "$", "!", "{", "}", ".", "lambda", "*", "@", "\n  "]
